@@ -59,6 +59,7 @@ type GScenario struct {
 	QF       string   `json:"qf"`
 	CancelAt int      `json:"cancel_at"` // -1: never; k: end the context before the k-th release (k == len(order): after all)
 	Deadline bool     `json:"deadline"`
+	Burst    bool     `json:"burst,omitempty"` // all gates are opened at once (answers arrive as a burst, in an order the harness does not control)
 
 	acts  []Act
 	codes []codes.Code
@@ -144,6 +145,8 @@ func genScenario(rng *rand.Rand, n int, variants []string) GScenario {
 	if rng.Intn(4) == 0 {
 		sc.CancelAt = rng.Intn(len(sc.Order) + 1)
 		sc.Deadline = rng.Intn(2) == 0
+	} else if rng.Intn(5) == 0 {
+		sc.Burst = true
 	}
 	sc.fill()
 	return sc
@@ -506,7 +509,39 @@ func (g *gatedEngine) run(sc GScenario, slot int) {
 		cancelled = true
 	}
 	lastWasObservedReply := false
+	if sc.Burst {
+		// open every gate at once; then wait until the call ended or every successful reply was shown to the quorum function
+		for _, i := range sc.Order {
+			plans[i].Open()
+			released[i] = true
+			if plans[i].Act == ActReply {
+				repliesReleased++
+			} else {
+				errorsReleased++
+			}
+		}
+		deadline := time.After(e.W)
+	burst:
+		for mon.NumInvs() < repliesReleased {
+			select {
+			case <-mon.Notify:
+			case <-task.Done:
+				break burst
+			case <-time.After(2 * time.Millisecond):
+			case <-deadline:
+				break burst
+			}
+		}
+		sc.Order = sc.Order[:0:0] // nothing left to release one by one
+		for i := range released {
+			sc.Order = append(sc.Order, i)
+		}
+		sort.Ints(sc.Order)
+	}
 	for pos, i := range sc.Order {
+		if sc.Burst {
+			break
+		}
 		if sc.CancelAt == pos {
 			endCtx()
 			break
@@ -856,7 +891,10 @@ func (g *gatedEngine) run(sc GScenario, slot int) {
 			p.Open()
 		}
 	}
-	sig := fmt.Sprintf("%s|%d|%v|%v|%s|%d|%v", sc.Variant, sc.N, sc.Acts, arrival, sc.QF, sc.CancelAt, sc.Deadline)
+	sig := fmt.Sprintf("%s|%d|%v|%v|%s|%d|%v|%v", sc.Variant, sc.N, sc.Acts, arrival, sc.QF, sc.CancelAt, sc.Deadline, sc.Burst)
+	if sc.Burst {
+		R.Count("burst_scenarios", 1)
+	}
 	R.Eval(sig, sc.nontrivial())
 	R.Count("qf_invocations", int64(len(invs)))
 	R.Count("outcome."+outcome, 1)
